@@ -357,10 +357,23 @@ def bind_rule(cx, rid_bind="C08-BIND", rid_map="C08-MAP", only=None, floor=300):
             shapes = [s for s in shapes_for(params) if not host_rejects(cls, s, params)]
             posable = tuple(p[0] for p in params if p[1] in ("pos", "posonly"))
             order = tuple(p[0] for p in params)
+            numeric = set()
+            for a_ in list(fn.args.posonlyargs) + list(fn.args.args) + list(fn.args.kwonlyargs):
+                ann = norm(a_.annotation) if a_.annotation is not None else ""
+                if ("int" in ann or "float" in ann) and not any(t_ in ann for t_ in ("Callable", "Sequence", "List", "Iterable", "bool")):
+                    numeric.add(a_.arg)
             for shape in shapes:
                 shapes_total += 1
                 pending.append((cls, hcls, hfn, shape, params, f2p, rx, arm, hm, fn))
                 tasks.append((cls, hcls, hfn, posable, shape.npos, tuple(sorted(shape.kws)), order))
+                # the same shape with a literal 0 for every supplied numeric parameter: a supplied zero is an argument,
+                # not an absence (`value or default` would replace it)
+                supplied = set(posable[:shape.npos]) | set(shape.kws)
+                zeros = frozenset(supplied & numeric)
+                if zeros and not cls.endswith("Decl"):
+                    shapes_total += 1
+                    pending.append((cls, hcls, hfn, shape, params, f2p, rx, arm, hm, fn))
+                    tasks.append((cls, hcls, hfn, posable, shape.npos, tuple(sorted(shape.kws)), order, zeros))
     from .. import bindeval
     results = bindeval.evaluate(tasks)
     for (cls, hcls, hfn, shape, params, f2p, rx, arm, hm, fn), (kind, val, desc, src) in zip(pending, results):
